@@ -427,14 +427,38 @@ class ManifestRecursiveLoader:
         (more specific) will always be returned before the Manifests
         for parent directories. The order is otherwise undefined.
         """
-        # NB: the sort is stable, so reverse the load order first: if
-        # a Manifest references another Manifest in the same directory,
-        # the referenced one (always loaded later) must come first
+        found = list(self._iter_unordered_manifests_for_path(
+            path, recursive=recursive))
+
+        # if a Manifest references another Manifest in the same
+        # directory, the referenced one must come first (whatever
+        # the order they have been loaded in)
+        per_dir = {}
+        for k, d, v in found:
+            per_dir.setdefault(d, []).append(k)
+
+        def height(k, seen):
+            d = os.path.dirname(k)
+            ret = 0
+            for e in self.loaded_manifests[k].entries:
+                if e.tag != 'MANIFEST':
+                    continue
+                t = os.path.join(d, e.path)
+                if (t != k and t not in seen and t in per_dir[d]):
+                    ret = max(ret, 1 + height(t, seen + (k,)))
+            return ret
+
+        heights = {}
+        for d, keys in per_dir.items():
+            if len(keys) > 1:
+                for k in keys:
+                    heights[k] = height(k, ())
+
+        # NB: the sort is stable, so reverse the load order first
+        # to keep the remaining order as it used to be
         return sorted(
-                reversed(list(self._iter_unordered_manifests_for_path(
-                    path, recursive=recursive))),
-                key=lambda kdv: len(kdv[1]),
-                reverse=True)
+                reversed(found),
+                key=lambda kdv: (-len(kdv[1]), heights.get(kdv[0], 0)))
 
     def load_manifests_for_path(self, path, recursive=False, verify=True):
         """
